@@ -416,7 +416,8 @@ def run(ctx):
         hyp[lab] = {'points': c['points'], 'tiling_true': c['tiling_true'], 'tiling_false': c['tiling_false'],
                     'connected_near_true': c['connected_near_true'], 'connected_near_false': c['connected_near_false'],
                     'outside_points': c['outside_points'],
-                    'columns': c['columns'], 'columns_strictly_convex_ccw': c['columns_strictly_convex_ccw']}
+                    'columns': c['columns'], 'columns_strictly_convex_ccw': c['columns_strictly_convex_ccw'],
+                    'columns_convex_ccw_after_straightening': c['columns_convex_ccw_after_straightening']}
     ctx.hyp_met = hyp
     ctx.extra['input_distribution'] = {k: v for k, v in sorted(counts.items())}
     ctx.extra['geometries'] = [{k: (v if k not in ('dx', 'dy', 'dz', 'refine', 'delete') or len(str(v)) < 200 else str(v)[:200] + '...')
